@@ -8,6 +8,12 @@
 #include <unistd.h>
 
 #include "fiber_manager.h"
+#include "fiber_spinlock.h"
+#include "fiber_cond.h"
+#include "fiber_barrier.h"
+#include "fiber_rwlock.h"
+#include "fiber_semaphore.h"
+#include "fiber_mutex.h"
 #include "fiber_scheduler.h"
 #include "work_stealing_deque.h"
 #include "fiber_event.h"
@@ -32,6 +38,93 @@ void rt_work(int idx, int n) {
   for (int i = 0; i < n; i++) work_cell[idx] += i;
 }
 
+// "lifecycle k": a private, short-lived synchronisation object on the fiber's own stack (memory that is not zero): initialised,
+// used without contention, results of the try variants checked, destroyed - while the long-lived objects of the case are in use
+#define LC_FAIL(...) vs_violation("lifecycle_result", __VA_ARGS__)
+static void rt_lifecycle(int idx, int kind) {
+  switch (((kind % 6) + 6) % 6) {
+    case 0: {
+      fiber_mutex_t m;
+      rt_dirty(&m, sizeof m);
+      fiber_mutex_init(&m);
+      fiber_mutex_lock(&m);
+      if (fiber_mutex_trylock(&m) == FIBER_SUCCESS) LC_FAIL("fiber %d: trylock of its own locked private mutex succeeded", idx);
+      fiber_mutex_unlock(&m);
+      if (fiber_mutex_trylock(&m) != FIBER_SUCCESS) LC_FAIL("fiber %d: trylock of a free private mutex failed", idx);
+      fiber_mutex_unlock(&m);
+      fiber_mutex_destroy(&m);
+      break;
+    }
+    case 1: {
+      fiber_semaphore_t s;
+      rt_dirty(&s, sizeof s);
+      fiber_semaphore_init(&s, 2);
+      fiber_semaphore_wait(&s);
+      if (fiber_semaphore_trywait(&s) != FIBER_SUCCESS) LC_FAIL("fiber %d: trywait on a private semaphore holding one unit failed", idx);
+      if (fiber_semaphore_trywait(&s) == FIBER_SUCCESS) LC_FAIL("fiber %d: trywait on an empty private semaphore succeeded", idx);
+      fiber_semaphore_post(&s);
+      fiber_semaphore_post(&s);
+      if (fiber_semaphore_getvalue(&s) != 2) LC_FAIL("fiber %d: private semaphore value %d after init 2, two waits, two posts", idx, fiber_semaphore_getvalue(&s));
+      fiber_semaphore_destroy(&s);
+      break;
+    }
+    case 2: {
+      fiber_rwlock_t l;
+      rt_dirty(&l, sizeof l);
+      fiber_rwlock_init(&l);
+      fiber_rwlock_rdlock(&l);
+      if (fiber_rwlock_tryrdlock(&l) != FIBER_SUCCESS) LC_FAIL("fiber %d: second read hold on a private rwlock refused", idx);
+      if (fiber_rwlock_trywrlock(&l) == FIBER_SUCCESS) LC_FAIL("fiber %d: trywrlock succeeded on a private rwlock with two read holds", idx);
+      fiber_rwlock_rdunlock(&l);
+      fiber_rwlock_rdunlock(&l);
+      fiber_rwlock_wrlock(&l);
+      if (fiber_rwlock_tryrdlock(&l) == FIBER_SUCCESS) LC_FAIL("fiber %d: tryrdlock succeeded on a write-locked private rwlock", idx);
+      fiber_rwlock_wrunlock(&l);
+      if (fiber_rwlock_trywrlock(&l) != FIBER_SUCCESS) LC_FAIL("fiber %d: trywrlock of a free private rwlock failed", idx);
+      fiber_rwlock_wrunlock(&l);
+      fiber_rwlock_destroy(&l);
+      break;
+    }
+    case 3: {
+      fiber_barrier_t b;
+      rt_dirty(&b, sizeof b);
+      fiber_barrier_init(&b, 1);
+      for (int i = 0; i < 3; i++)
+        if (fiber_barrier_wait(&b) != FIBER_BARRIER_SERIAL_FIBER) LC_FAIL("fiber %d: the only participant of a private barrier was not the serial fiber in round %d", idx, i + 1);
+      fiber_barrier_destroy(&b);
+      break;
+    }
+    case 4: {
+      fiber_mutex_t m;
+      fiber_cond_t c;
+      rt_dirty(&m, sizeof m);
+      rt_dirty(&c, sizeof c);
+      fiber_mutex_init(&m);
+      fiber_cond_init(&c);
+      fiber_cond_signal(&c);
+      fiber_mutex_lock(&m);
+      fiber_cond_broadcast(&c);
+      fiber_mutex_unlock(&m);
+      fiber_cond_signal(&c);
+      fiber_cond_destroy(&c);
+      fiber_mutex_destroy(&m);
+      break;
+    }
+    default: {
+      fiber_spinlock_t s;
+      rt_dirty(&s, sizeof s);
+      fiber_spinlock_init(&s);
+      fiber_spinlock_lock(&s);
+      if (fiber_spinlock_trylock(&s) == FIBER_SUCCESS) LC_FAIL("fiber %d: trylock of its own held private spinlock succeeded", idx);
+      fiber_spinlock_unlock(&s);
+      if (fiber_spinlock_trylock(&s) != FIBER_SUCCESS) LC_FAIL("fiber %d: trylock of a free private spinlock failed", idx);
+      fiber_spinlock_unlock(&s);
+      fiber_spinlock_destroy(&s);
+      break;
+    }
+  }
+}
+
 static void* fiber_body(void* p) {
   const int idx = (int)(intptr_t)p;
   const harness_t* H = rt_harness();
@@ -47,6 +140,8 @@ static void* fiber_body(void* p) {
       }
     } else if (!strcmp(op->name, "work")) {
       rt_work(idx, op->a);
+    } else if (!strcmp(op->name, "lifecycle")) {
+      rt_lifecycle(idx, op->a);
     } else if (!strcmp(op->name, "nop") || (!strcmp(op->name, "target") && op->a < 0)) {
     } else if (!H->do_op(idx, op)) {
       vs_violation("engine_limit", "unknown op %s", op->name);
